@@ -55,6 +55,7 @@ Inductive hop :=
 | OTraverseFrom (pre seg : nibbles)       (* traverse(pre) then traverse_from(that node, seg) *)
 | ORootNode
 | ODrop (h : bytes)                       (* the harness removes a database entry *)
+| OPut (h body : bytes)                   (* the harness supplies a database entry (retry loops) *)
 | OBudget (n : option nat)                (* the backing store fails its (n+1)-th write from now on *)
 | OAtRoot (h : bytes) (ops : list hop).   (* with at_root(h) as snap: ops on snap *)
 
@@ -72,6 +73,12 @@ Definition drop_entry (t : trie) (h : bytes) : trie :=
   | DPlain s => with_db t (DPlain (mkStore (adel (cells s) h) (budget s)))
   | DScratch sc => with_db t (DScratch (mkScratch (mkStore (adel (cells (wrapped sc)) h) (budget (wrapped sc)))
                                                   (adel (cache sc) h)))
+  end.
+
+Definition put_entry (t : trie) (h body : bytes) : trie :=
+  match t_db t with
+  | DPlain s => with_db t (DPlain (mkStore (aset (cells s) h body) (budget s)))
+  | DScratch sc => with_db t (DScratch (mkScratch (mkStore (aset (cells (wrapped sc)) h body) (budget (wrapped sc))) (cache sc)))
   end.
 
 Definition regen_fuel : nat := 4000.
@@ -124,6 +131,7 @@ Fixpoint hstep (t : trie) (o : hop) {struct o} : trie * obs :=
       end
   | ORootNode => let '(r, _) := root_node BLANK_NODE_HASH t in (t, res_obs hnode_obs r)
   | ODrop h => (drop_entry t h, ONone)
+  | OPut h body => (put_entry t h body, ONone)
   | OBudget n => (set_budget t n, ONone)
   | OAtRoot h ops =>
       match at_root t h with
